@@ -113,7 +113,8 @@ class World:
             if k == "feed":
                 it = op["item"]
                 d = op["dec"]
-                if it["kind"] == "claim":
+                if it["kind"] == "claim" or it["pgn"] == 60928:
+                    # every frame of PGN 60928 that decodes is an address claim, also a truncated one (zero-extended NAME)
                     self.claims[d].append(it)
                 if it["src"] == PROBE_SRC and len(it["data"]) >= 2 and (it["data"][0] & 0x1F) == 0:
                     self.last_seq[d][(it["pgn"], PROBE_SRC, it["dest"])] = it["data"][0] >> 5
